@@ -68,7 +68,10 @@ Print Assumptions machine_answers_as_meaning.
 
 (** For the same request, /trace lists the requested calculations and the ids of the
     populations, and the value it reports for a requested calculation holds, at the
-    position of the instance, the leaf that /calculate puts into the slot. *)
+    position of the instance, the same engine element [x] that /calculate renders into the
+    slot: [render ty x] there, [serialize ty x] here.  The two are the same JSON value
+    unless [x] is a float32 whose shortest decimal text is not its exact value (then
+    /calculate gives float(str(x)) and /trace the exact double). *)
 Theorem trace_agrees_with_calculate :
   forall var_info ids_of is_role period_ok value_of plurals canon d out t,
     NoDup (map fst d) ->
@@ -79,10 +82,15 @@ Theorem trace_agrees_with_calculate :
     /\ described t = map (fun pl => (pl, match ids_of pl with Some ids => ids | None => [] end)) plurals
     /\ Forall2 (fun pa kv => let '(pl, id, v, pk) := pa in
                   fst kv = trace_key v (canon pk)
-                  /\ exists ids i l, ids_of pl = Some ids /\ index_of id ids = Some i
-                                     /\ In (pa, l) out /\ nth_error (snd kv) i = Some l)
+                  /\ exists ids i ty vpl x, ids_of pl = Some ids /\ index_of id ids = Some i
+                                     /\ var_info v = Some (ty, vpl)
+                                     /\ In (pa, render ty x) out /\ nth_error (snd kv) i = Some (serialize ty x))
                (null_paths d) (traced t).
 Proof. exact trace_agrees. Qed.
+Print Assumptions trace_agrees_with_calculate.
+
+Theorem trace_value_is_calculate_value : forall ty x, (forall e s, x <> RF e s) -> serialize ty x = render ty x.
+Proof. exact serialize_render. Qed.
 Print Assumptions trace_agrees_with_calculate.
 
 (** The model's application keeps nothing between requests: in any sequence served by
